@@ -711,4 +711,67 @@ theorem closest_isSome_of_mem {d : Nat → Dist} {occ : List Nat} {r : Nat} (h :
   | nil => simp at h
   | cons a t => exact ⟨_, rfl⟩
 
+/-! ### real neighbours sit in the first `ny` columns (pigeonhole) -/
+
+theorem length_le_of_nodup_lt (n : Nat) : ∀ (l : List Nat), l.Nodup → (∀ x ∈ l, x < n) → l.length ≤ n := by
+  induction n with
+  | zero =>
+    intro l _ h
+    cases l with
+    | nil => simp
+    | cons a t => exact absurd (h a (by simp)) (Nat.not_lt_zero a)
+  | succ n ih =>
+    intro l hnd h
+    have hnd' : (l.erase n).Nodup := hnd.sublist List.erase_sublist
+    have hlt : ∀ x ∈ l.erase n, x < n := by
+      intro x hx
+      have := (List.Nodup.mem_erase_iff hnd).mp hx
+      have := h x this.2
+      omega
+    have := ih _ hnd' hlt
+    have hl := List.length_erase (a := n) (l := l)
+    split at hl <;> omega
+
+/-- under the oracle contract, finite entries form a prefix of each row -/
+theorem finite_prefix {D : List (List Dist)} {inds : List (List Nat)} {ny K : Nat} {bound : Dist}
+    (h : WFQuery D inds ny K bound) {r c : Nat} (hr : r < inds.length) (hc : c < K)
+    (hf : (dAt D r c).isSome = true) : ∀ c', c' ≤ c → (dAt D r c').isSome = true := by
+  induction c with
+  | zero => intro c' hc'; have : c' = 0 := by omega
+            subst this; exact hf
+  | succ c ih =>
+    intro c' hc'
+    by_cases he : c' = c + 1
+    · subst he; exact hf
+    · have hs := h.sorted r c hr hc
+      have : (dAt D r c).isSome = true := by
+        cases hd : dAt D r c with
+        | some v => rfl
+        | none =>
+          rw [hd] at hs
+          obtain ⟨v, hv⟩ := Option.isSome_iff_exists.mp hf
+          rw [hv] at hs
+          simp [dle, dlt] at hs
+      exact ih (by omega) this c' (by omega)
+
+/-- a real neighbour can only sit in one of the first `ny` columns -/
+theorem col_lt_ny_of_real {D : List (List Dist)} {inds : List (List Nat)} {ny K : Nat} {bound : Dist}
+    (h : WFQuery D inds ny K bound) {r c : Nat} (hr : r < inds.length) (hc : c < K)
+    (hv : indsAt inds r c < ny) : c < ny := by
+  have hf := (h.finite_iff r c hr hc).mp hv
+  have hpre := finite_prefix h hr hc hf
+  have hreal : ∀ c', c' ≤ c → indsAt inds r c' < ny :=
+    fun c' hc' => (h.finite_iff r c' hr (by omega)).mpr (hpre c' hc')
+  have hnd : ((List.range (c + 1)).map (indsAt inds r)).Nodup := by
+    refine List.Pairwise.map _ ?_ (List.Pairwise.and_mem.mp List.pairwise_lt_range)
+    intro a b ⟨_, hb, hab⟩
+    have hb' := List.mem_range.mp hb
+    exact h.distinct r b a hr hab (by omega) (hreal a (by omega))
+  have hlen := length_le_of_nodup_lt ny _ hnd (by
+    intro x hx
+    obtain ⟨c', hc', rfl⟩ := List.mem_map.mp hx
+    exact hreal c' (by have := List.mem_range.mp hc'; omega))
+  simp at hlen
+  omega
+
 end Kdt
